@@ -608,7 +608,13 @@ theorem stepOp_hold {s s' : State} {op : Op} {out : List Bytes} (hi : Inv s) (hh
   cases op with
   | chunk bs =>
     simp only [stepOp, stepChunk] at h
-    exact stepLines_hold _ (inv_inbuf hi _) (by exact hh) h
+    cases hr : stepLines { s with inbuf := [] } (splitLines (s.inbuf ++ bs)).1 with
+    | error e => simp [hr, Except.map] at h
+    | ok r =>
+      obtain ⟨s1, o1⟩ := r
+      simp only [hr, Except.map, Except.ok.injEq, Prod.mk.injEq] at h
+      obtain ⟨rfl, _⟩ := h
+      exact (stepLines_hold _ (inv_inbuf hi []) (by exact hh) hr : HInv s1)
   | timeout id =>
     simp only [stepOp] at h
     cases hr : stepTimeout s id with
